@@ -61,6 +61,14 @@ def early_none_tests(ctx, fi, ret):
     return tests
 
 
+def _recorded_iff_not_none(ctx, fi, append_call, result_expr) -> bool:
+    """What is known where the pair is recorded is exactly `<result> is None` being false (as a nested test or a guard clause that continues)."""
+    from .common import facts
+    name = norm_text(result_expr)
+    fs = facts(ctx, fi, append_call, expand=False)
+    return fs == {(f"{name} is None", False)}
+
+
 def run(ctx: Context) -> None:
     p = ctx.p
     base = p.cls(BASE)
@@ -203,9 +211,8 @@ def run(ctx: Context) -> None:
                           and flow.resolve(item.elts[1]) is cd[0]
                           and isinstance(cd[0].func.value, ast.Name) and cd[0].func.value.id == loops[0].target.id
                           and len(cd[0].args) == 1 and flow.canon(cd[0].args[0]) == ('param', mc.params[1])
-                          and any(inb and isinstance(st.test, ast.Compare) and isinstance(st.test.ops[0], ast.IsNot) and is_none(st.test.comparators[0])
-                                  and flow.resolve(st.test.left) is cd[0] for st, inb in g)
-                          and not [x for x in ast.walk(loops[0]) if isinstance(x, (ast.Break, ast.Continue, ast.Return))])
+                          and _recorded_iff_not_none(ctx, mc, a, item.elts[1])
+                          and not [x for x in ast.walk(loops[0]) if isinstance(x, (ast.Break, ast.Return))])
                 matches_c = flow.canon(a.func.value)
                 site = a
         else:
